@@ -241,7 +241,8 @@ def extract_fragment(text, frag, key):
     frag = dict(kind='match'|'closure'|'block', index=k, sig='fn name(params) -> T', scrutinee=None|'param')
     kind 'match': the k-th `match` expression (in token order) of the function body; if `scrutinee` is given the
     scrutinee expression is replaced by that identifier. Result: `<sig> { <match expr> }`.
-    kind 'closure': k-th closure `|..| {body}` or `|..| expr`; result `<sig> <body block>`.
+    kind 'closure': k-th closure `|..| {body}` or `|..| -> T {body}`; result `<sig> <body block>`.
+    kind 'prefix': the statements of the body before the first match of regex `until`; result `<sig> { <statements> <tail> }` (index unused).
     """
     toks = lex(text)
     kind, index = frag['kind'], frag['index']
@@ -281,13 +282,36 @@ def extract_fragment(text, frag, key):
         if index >= len(openers):
             raise LostAnchor('%s: closure #%d not found (%d closures)' % (key, index, len(openers)))
         j, k = openers[index]
-        if toks[k + 1][1] != '{':
+        b = k + 1
+        if toks[b][1] == '->':
+            # `|params| -> Type { body }`: skip the declared return type
+            while b < len(toks) and toks[b][1] != '{':
+                b += 1
+        if b >= len(toks) or toks[b][1] != '{':
             raise LostAnchor('%s: closure #%d has no block body' % (key, index))
-        c = match_close(toks, k + 1)
+        c = match_close(toks, b)
         params = text[toks[j][3]:toks[k][2]].strip()
         if frag.get('expect_params') is not None and norm(params) != norm(frag['expect_params']):
             raise LostAnchor('%s: closure #%d params are %r, expected %r' % (key, index, params, frag['expect_params']))
-        return '%s %s' % (frag['sig'], text[toks[k + 1][2]:toks[c][3]]), {'params': params}
+        return '%s %s' % (frag['sig'], text[toks[b][2]:toks[c][3]]), {'params': params}
+    if kind == 'prefix':
+        # the statements of the function body BEFORE the first match of the regex `until`, as a function returning `tail`
+        j = 0
+        while j < len(toks):
+            t = toks[j]
+            if t[0] == 'p' and t[1] in ('(', '['):
+                j = match_close(toks, j) + 1
+                continue
+            if t[0] == 'p' and t[1] == '{':
+                break
+            j += 1
+        if j >= len(toks):
+            raise LostAnchor('%s: no function body' % key)
+        b0 = toks[j][3]
+        m = re.compile(frag['until']).search(text, b0)
+        if not m:
+            raise LostAnchor('%s: prefix fragment: marker %r not found' % (key, frag['until'][:60]))
+        return '%s {%s\n    %s\n}' % (frag['sig'], text[b0:m.start()], frag['tail']), {'until': frag['until'], 'dropped_bytes': len(text) - m.start()}
     raise ValueError(kind)
 
 
